@@ -32,6 +32,8 @@ set_option linter.all false
 
 open EPV EPV.Gen EPV.Spec EPV.Lemmas
 
+open Filter Topology
+
 namespace EPV.C01
 
 /-- the traced model has exactly the leaves the theorems below cover (leaf 0: NaN for t ≤ 0) -/
@@ -241,5 +243,61 @@ theorem Finding_cog17_domain :
   · simp only [epv_leaf]; norm_num
   · rintro ⟨-, -, -, -, -, -, -, -, hT0, -⟩
     norm_num at hT0
+
+/-! ### The returned (tree-level) fields
+
+The only path condition is `t ≤ 0` (NaN fields): for t > 0 the returned fields are those of leaf 1
+near the point. -/
+
+theorem cog17_tree_agree (p : Cog17.P) (r t : ℝ) (ht : 0 < t) :
+    AgreeNear (Cog17.density p) (Cog17.L1.density p) r t
+      ∧ AgreeNear (Cog17.velocity p) (Cog17.L1.velocity p) r t
+      ∧ AgreeNear (Cog17.temperature p) (Cog17.L1.temperature p) r t := by
+  have hx : ∀ᶠ x in 𝓝 r, 0 < t := Eventually.of_forall fun _ => ht
+  have hs : ∀ᶠ s in 𝓝 t, 0 < s := eventually_gt_nhds ht
+  have e : ∀ x s : ℝ, 0 < s → ¬ Cog17.c0 p x s := by
+    intro x s hc; simp only [epv_cond, not_le]; exact hc
+  exact ⟨agreeNear_of_cond (c := fun _ s => 0 < s) (fun x s hc => by simp only [epv_tree, if_neg (e x s hc)]) hx hs,
+    agreeNear_of_cond (c := fun _ s => 0 < s) (fun x s hc => by simp only [epv_tree, if_neg (e x s hc)]) hx hs,
+    agreeNear_of_cond (c := fun _ s => 0 < s) (fun x s hc => by simp only [epv_tree, if_neg (e x s hc)]) hx hs⟩
+
+theorem cog17_momentum_tree (p : Cog17.P) (r t : ℝ) (hwd : Cog17.L1.WellDefined p r t) :
+    momResT (Cog17.density p) (Cog17.velocity p) (Cog17.temperature p) p.Gamma r t = 0 := by
+  have ht : 0 < t := hwd.2.2.2.2.2.2.2.2.2.2.2.1
+  obtain ⟨h1, h2, h3⟩ := cog17_tree_agree p r t ht
+  rw [momResT_congr_near h1 h2 h3]; exact cog17_momentum p r t hwd
+
+/-- the mass equation is violated by the returned fields wherever they are well defined -/
+theorem cog17_mass_tree_ne_zero (p : Cog17.P) (r t : ℝ) (hwd : Cog17.L1.WellDefined p r t)
+    (hβ : 2 * p.beta + 5 ≠ 0) :
+    massRes (Cog17.density p) (Cog17.velocity p) (p.geometry - 1) r t ≠ 0 := by
+  have ht : 0 < t := hwd.2.2.2.2.2.2.2.2.2.2.2.1
+  obtain ⟨h1, h2, h3⟩ := cog17_tree_agree p r t ht
+  rw [massRes_congr_near h1 h2]; exact cog17_mass_ne_zero p r t hwd hβ
+
+/-- FINDING (false on the current tree), for the returned fields themselves -/
+theorem Finding_cog17_mass_tree :
+    ∃ p : Cog17.P, ∃ r t : ℝ, Cog17.L1.WellDefined p r t ∧ p.geometry = 3 ∧
+      -1 ≤ p.alpha ∧ p.alpha ≤ 2 ∧ 1 ≤ p.beta ∧ p.beta ≤ 3 ∧
+      massRes (Cog17.density p) (Cog17.velocity p) (p.geometry - 1) r t ≠ 0 := by
+  refine ⟨cog17_witness, 1, 1, cog17_witness_wellDefined 1 1 one_pos one_pos, ?_, ?_, ?_, ?_, ?_,
+    cog17_mass_tree_ne_zero _ 1 1 (cog17_witness_wellDefined 1 1 one_pos one_pos) ?_⟩ <;>
+  norm_num [cog17_witness]
+
+/-- FINDING (false on the current tree), for the returned fields themselves -/
+theorem Finding_cog17_energy_tree :
+    ∃ p : Cog17.P, ∃ r t : ℝ, Cog17.L1.WellDefined p r t ∧ p.geometry = 3 ∧
+      -1 ≤ p.alpha ∧ p.alpha ≤ 2 ∧ 1 ≤ p.beta ∧ p.beta ≤ 3 ∧
+      energyResT (Cog17.density p) (Cog17.velocity p) (Cog17.temperature p)
+        p.Gamma p.gamma (p.geometry - 1) 29970000000 (686 / 5) p.lambda0 p.alpha p.beta r t ≠ 0 := by
+  obtain ⟨p, r, t, hwd, hg, ha1, ha2, hb1, hb2, hne⟩ := Finding_cog17_energy
+  have ht : 0 < t := hwd.2.2.2.2.2.2.2.2.2.2.2.1
+  obtain ⟨h1, h2, h3⟩ := cog17_tree_agree p r t ht
+  exact ⟨p, r, t, hwd, hg, ha1, ha2, hb1, hb2, by rw [energyResT_congr_near h1 h2 h3]; exact hne⟩
+
+/-- non-vacuity of the hypotheses of `cog17_mass_residual` (the witness parameters) -/
+example : ∃ p : Cog17.P, ∃ r t : ℝ, 0 < r ∧ 0 < t ∧
+    2 * p.beta - 4 + (1 - p.alpha) * ((p.geometry - 1) + 1) ≠ 0 ∧ 1 - p.alpha ≠ 0 :=
+  ⟨cog17_witness, 1, 1, by norm_num, by norm_num, by norm_num [cog17_witness], by norm_num [cog17_witness]⟩
 
 end EPV.C01
